@@ -74,7 +74,7 @@ SIZES = [(1, 8), (2, 8), (3, 8), (8, 8), (9, 8), (16, 8), (3, 2), (4, 2), (5, 2)
 def sched_of(r, budget, bias=None):
     """decision list; bias='low' keeps most decisions 0 (run one thread for a while), a good way to reach deep states"""
     out = []
-    for _ in range(budget + 24):
+    for _ in range(budget + 80):     # spare decisions: a FUTEX_WAKE of n < #waiters consumes one per woken waiter
         if bias == 'low' and r.random() < 0.75:
             out.append(0)
         else:
@@ -158,7 +158,12 @@ def gen_proto(r, flavour):
         if r.random() < 0.4:
             progs.append([('T', i) for i in widx] + [('A', None)])
     budget = 40 + 16 * nw
-    return {'n': n, 'gs': gs, 'tmo': 0, 'budget': budget, 'progs': progs, 'sched': sched_of(r, budget, r.choice(['low', 'low', None])), 'kind': flavour}
+    sched = sched_of(r, budget, r.choice(['low', 'low', None]))
+    if flavour in ('ring', 'central', 'mixed') and r.random() < 0.6:
+        # the premise of C07: every worker is parked before the producer starts (decision 0 = lowest runnable tid: worker t runs
+        # start + the 7 steps of its park cycle and blocks, then worker t+1, ...; the producers are the last tids)
+        sched = [0] * (8 * nw) + sched[8 * nw:]
+    return {'n': n, 'gs': gs, 'tmo': 0, 'budget': budget, 'progs': progs, 'sched': sched, 'kind': flavour}
 
 
 # deterministic witnesses on the real PoolWakeState (decision lists pick the futex waiters)
@@ -190,7 +195,7 @@ def run_lockstep(ctx, exe, cases, judge, imports):
         p = ls_common.parse_vsched(o, SITES, TAGS)
         e = parse_extra(p['extra']) if p and 'error' not in p else None
         if p is None or 'error' in p or e is None:
-            ctx.broken.append('lockstep harness output unreadable for %s: %s' % (line_of(c)[:200], (o or '')[:200]))
+            ctx.broken.append('lockstep harness output unreadable for %s: %s' % (line_of(c), (o or '')[:300]))
             continue
         terms.append(term_of(c, p, e))
         kept.append((c, p, o))
